@@ -22,9 +22,9 @@ def snap(N):
     return {t: (list(n.get('todo')), sorted(n.get('doing')), sorted(n.get('do'))) for t, n in N.items()}
 
 
-def run(seed, nev=40, verbose=False):
+def run(seed, nev=40, verbose=False, feedback=False):
     rng = random.Random(seed)
-    desc = engine.random_desc(rng, feedback=False)
+    desc = engine.random_desc(rng, feedback=feedback)
     Fs, works = engine.build(desc)
     S.build(Fs, [{}, {}, {}], [{}, {}, {}, {}])
     S.que.clear()
@@ -107,10 +107,17 @@ def run(seed, nev=40, verbose=False):
                         V['C02 not minimal: gained without new input'] += 1
                     if consumes and c.tag not in [j.tag for j in S.que]:
                         V['C02 consumer not in que'] += 1
+                fbc = {S.ae.feedbacks[v].rsplit('.', 2)[0] for v in new if v in S.ae.feedbacks}
                 for o in N:
                     if o not in [c.tag for c in N[tag]]:
-                        if set(after[o][0]) - set(before[o][0]):
+                        gained = set(after[o][0]) - set(before[o][0])
+                        if gained and o not in fbc:
                             V['C02 not minimal: non-child gained'] += 1
+                for o in fbc:
+                    want = {'__all__'} if asp[o] else exp_t
+                    if not want <= set(after[o][0]):
+                        V['C02 incomplete: feedback consumer not queued'] += 1
+                    V['_feedback reports'] += 1
             else:
                 for o in N:
                     b, a = before[o], after[o]
@@ -140,7 +147,7 @@ if __name__ == '__main__':
     tot = collections.Counter()
     first = {}
     for seed in range(n):
-        V, hist = run(seed)
+        V, hist = run(seed, feedback=len(sys.argv) > 2)
         for k in V:
             first.setdefault(k, seed)
         tot.update(V)
